@@ -33,8 +33,13 @@ def judge(case, out0, out1):
                 if not is_subsequence(s0, s1):
                     return "the application-data segments (%s) without -a are not, in order, among the segments with -a (%d vs %d segments)" % ("server" if srv else "client", len(s0), len(s1))
                 plain = cn.s.conn.plaintext(srv)
-                if b"".join(s0) != plain:
+                if b"".join(s0) != plain and not getattr(cn, "data_after_alert", False):
                     return "without -a the %s stream is not the application data" % ("server" if srv else "client")
+                # -a adds handshake, alert and ChangeCipherSpec material only: an application record's plaintext that shows with -a shows without it
+                j0, j1 = b"".join(s0), b"".join(s1)
+                for x in cn.s.conn.plain[srv]:
+                    if len(x) >= 16 and x in j1 and x not in j0:
+                        return "an application record of the %s (%d bytes) is exported with -a but not without" % ("server" if srv else "client", len(x))
             # hellos verbatim, as packets of their own
             for srv, kind in ((False, "ch"), (True, "sh")):
                 rec = next((r for isserver, r, k, _ in cn.s.conn.wire if k == kind or (kind == "sh" and isserver and k in ("sh", "hs"))), None)
@@ -122,6 +127,26 @@ def main():
                     pk = pk2 if pk2 is not None else pk
                 cn.packets = pk
                 hist["late-segments"] += 1
+                yield pool.build(rng, [cn], hist)
+            if i % 3 == 1:
+                # application data behind an (encrypted) warning alert: what is exported of it is outside the exactness claims (C01), but
+                # whatever it is, -a must not change it
+                from ref import iana_ref, tls_ref
+                code = rng.choice([0xC02F, 0x002F, 0x009C, 0xCCA8, 0x1301, 0x1303])
+                ver = rng.choice(tls_ref.valid_versions(code, iana_ref.denote(table[code])))
+                sc = tlsgen.Scenario()
+                sc.conn = tlsgen.make_conn(rng, table, code, ver, hist, nrec=2, reclen=40, shape="full")
+                sc.conn.alert(bool(rng.randrange(2)), level=1, desc=rng.choice([0, 90, 100]))
+                for _ in range(3):
+                    sc.conn.app(bool(rng.randrange(2)), bytes(rng.randrange(256) for _ in range(rng.choice([40, 100]))))
+                sc.client, sc.server = tlsgen.endpoints(rng, bool(rng.randrange(2)), server_port=443, idx=1)
+                sc.wire = [(srv, rec) for srv, rec, _, _ in sc.conn.wire]
+                sc.schedule = "records"
+                sc.packets = capgen.tcp_packets(sc.wire, rng, sc.client, sc.server, schedule="records")
+                sc.keylog = "\n".join(sc.conn.keylog_lines()) + "\n"
+                cn = pool.Conn("tls", sc, sc.packets)
+                cn.data_after_alert = True
+                hist["data-after-alert"] += 1
                 yield pool.build(rng, [cn], hist)
     for i, case in enumerate(all_cases()):
         st0, out0 = impl.run(case.capture, case.keylog, [])
